@@ -30,6 +30,9 @@ def main(argv=None):
         except ValueError:
             seed = 1
     prop = args.prop.upper()
+    # wall-clock backstop of a single real run (inconclusive when hit)
+    os.environ.setdefault(
+        "VERIF_RUN_BACKSTOP", "150" if args.tier == "quick" else "600")
 
     repo = os.environ.get("VERIF_REPO")
     if repo:
